@@ -25,7 +25,7 @@ def env_offline():
     e["CARGO_NET_OFFLINE"] = "true"
     e["RUST_BACKTRACE"] = "0"
     e["CARGO_TARGET_DIR"] = TARGET
-    e["RUSTFLAGS"] = "--cfg " + GUARD
+    e.pop("RUSTFLAGS", None)  # harness/.cargo/config.toml sets --cfg stylua_verif for the harness build
     e.pop("RUSTC_WRAPPER", None)
     return e
 
@@ -77,6 +77,7 @@ def cargo_build_hx():
 def cargo_build_cli():
     e = env_offline()
     e["CARGO_TARGET_DIR"] = TARGET_CLI
+    e["RUSTFLAGS"] = "--cfg " + GUARD
     with Lock("cargo-cli"):
         rc, out = sh(["cargo", "build", "--release", "--offline", "--manifest-path", os.path.join(REPO, "Cargo.toml"),
                       "--bin", "stylua", "--features", FEATURES], cwd=REPO, env=e, timeout=3000)
